@@ -362,6 +362,12 @@ ASMJIT_FAVOR_SIZE Error EmitHelper::emit_prolog(const FuncFrame& frame) {
     }
   }
 
+  // Emit: 'mov sa_reg, sp' (base register of stack arguments, FP already points to the same address).
+  uint32_t sa_reg_id = frame.sa_reg_id();
+  if (sa_reg_id != Reg::kIdBad && sa_reg_id != Gp::kIdSp && !(frame.has_preserved_fp() && sa_reg_id == Gp::kIdFp)) {
+    ASMJIT_PROPAGATE(emitter->mov(Gp::make_r64(sa_reg_id), sp));
+  }
+
   if (frame.has_stack_adjustment()) {
     uint32_t adj = frame.stack_adjustment();
     if (adj <= 0xFFFu) {
